@@ -388,3 +388,15 @@ Proof.
   apply cf_axis_roundtrip; unfold rows_reversed; cbn; try assumption.
   destruct Hwf as (H1 & H2 & H3 & H4). unfold wf_area; cbn. repeat split; auto.
 Qed.
+
+(* ------------------------------------------------------------------ round 3: storage independence.
+   In any arithmetic, the loaded area is a function of the VALUES first = v[0], last = v[-1] and the length only:
+   two coordinate variables holding the same values (whatever their storage dtype - the code widens them to Python
+   floats/ints with .item() before any arithmetic) load to the same area. *)
+Lemma cf_load_values_only {T : Type} (OP : ops T) (xs xs' ys ys' : Z -> T) w h :
+  xs 0%Z = xs' 0%Z -> xs (w - 1)%Z = xs' (w - 1)%Z -> ys 0%Z = ys' 0%Z -> ys (h - 1)%Z = ys' (h - 1)%Z ->
+  cf_load OP xs ys w h = cf_load OP xs' ys' w h /\
+  load_axis_raises OP xs w = load_axis_raises OP xs' w /\ load_axis_raises OP ys h = load_axis_raises OP ys' h.
+Proof.
+  intros E0 E1 E2 E3. unfold cf_load, load_axis_raises, load_axis. rewrite E0, E1, E2, E3. repeat split.
+Qed.
